@@ -25,6 +25,18 @@
 (*                    banman.ParseIPNet) and, in a goroutine,               *)
 (*                    PeerByAddr(addr) is disconnected - the ONE connected  *)
 (*                    peer whose "ip:port" string equals addr               *)
+(*   BanBegin(i,j,k)  the same BanPeer call, but taken step by step as the   *)
+(*   BanCommit        code has them: (1) the call is made and reaches the   *)
+(*                    ban store's write (BanBegin; the driver holds the     *)
+(*                    write there), (2) the write commits, BanPeer returns  *)
+(*                    and only then its deferred goroutine looks up         *)
+(*                    PeerByAddr(addr) and disconnects it (BanCommit).      *)
+(*                    Between the two the environment is free: connections  *)
+(*                    are dialled, handshakes proceed, peers drop.  While   *)
+(*                    the write is held nothing has changed yet, so a       *)
+(*                    reconnect of the address is refused as a duplicate    *)
+(*                    (the old peer is still there) and whatever gets in    *)
+(*                    through another port is judged like at Misbehave.     *)
 (*   Unban(i)         the ban is lifted in the store                        *)
 (*   Drop(p)          the remote side closes the connection                 *)
 (*                                                                          *)
@@ -36,8 +48,10 @@
 (* FixBanAllOfHost = FALSE describes BanPeer disconnecting only the peer    *)
 (* with exactly the reported "ip:port"; TRUE describes code that drops      *)
 (* every connected peer of the banned IP.                                   *)
-(* Not modelled: two simultaneous connections to the same ip:port (the      *)
-(* driver could not tell which of the two PeerByAddr picks).                *)
+(* Not modelled: two simultaneous HANDSHAKES with the same ip:port (both    *)
+(* could become peers and the driver could not tell which of the two        *)
+(* PeerByAddr picks).  A dial of the ip:port of a connected peer is         *)
+(* modelled: outboundPeerConnected refuses it.                              *)
 (***************************************************************************)
 EXTENDS Integers, Sequences, FiniteSets, TLC, Json, BanEnforceProps
 
@@ -45,13 +59,15 @@ CONSTANTS NP,        \* connection slots
           NI,        \* IPs
           NJ,        \* ports per IP
           MaxOps,    \* actions per history
+          Split,     \* TRUE: BanPeer calls are taken in two steps (BanBegin / BanCommit)
           FixBanAllOfHost
 
-VARIABLES ban, ph, ad, nops, abs, act, viol
+VARIABLES ban, ph, ad, pend, nops, abs, act, viol
 
-vars == <<ban, ph, ad, nops, abs, act, viol>>
+vars == <<ban, ph, ad, pend, nops, abs, act, viol>>
 
 NoAddr == <<0, 0>>
+NoPend == <<0, 0, 0>>      \* pend = <<i, j, k>>: a BanPeer((i,j), k) whose ban write has not committed yet
 
 Obs == [ban  |-> [i \in 1..NI |-> IF ban[i] = 0 THEN <<0, 0>> ELSE <<1, ban[i]>>],
         ad   |-> [p \in 1..NP |-> ad[p]],
@@ -75,9 +91,9 @@ Close(S) == /\ ph' = [q \in 1..NP |-> IF q \in S THEN 0 ELSE ph[q]]
 
 Connect(p, i, j) ==
   /\ ph[p] = 0
-  /\ \A q \in 1..NP : ad[q] # <<i, j>>          \* see "Not modelled"
-  /\ UNCHANGED ban
-  /\ IF ban[i] # 0
+  /\ \A q \in 1..NP : ad[q] = <<i, j>> => ph[q] = 3      \* see "Not modelled"
+  /\ UNCHANGED <<ban, pend>>
+  /\ IF ban[i] # 0 \/ \E q \in 1..NP : ad[q] = <<i, j>>     \* banned, or already connected to it
      THEN /\ UNCHANGED <<ph, ad>>
           /\ Finish(Act("Connect", p, i, j, 0, 0, "refused"))
      ELSE /\ ph' = [ph EXCEPT ![p] = 1]
@@ -88,15 +104,16 @@ Version(p, f) ==
   /\ ph[p] = 1
   /\ IF f = 3
      THEN /\ ph' = [ph EXCEPT ![p] = 2]
-          /\ UNCHANGED <<ban, ad>>
+          /\ UNCHANGED <<ban, ad, pend>>
           /\ Finish(Act("Version", p, ad[p][1], ad[p][2], f, 0, "ok"))
      ELSE /\ ban' = [ban EXCEPT ![ad[p][1]] = 2]
+          /\ UNCHANGED pend
           /\ Close({p} \cup Hit(ad[p][1], ad[p][2]))
           /\ Finish(Act("Version", p, ad[p][1], ad[p][2], f, 0, "dropped"))
 
 VerAck(p) ==
   /\ ph[p] = 2
-  /\ UNCHANGED ban
+  /\ UNCHANGED <<ban, pend>>
   /\ IF ban[ad[p][1]] # 0
      THEN /\ Close({p})
           /\ Finish(Act("VerAck", p, ad[p][1], ad[p][2], 0, 0, "dropped"))
@@ -106,18 +123,32 @@ VerAck(p) ==
 
 Misbehave(i, j, k) ==
   /\ ban' = [ban EXCEPT ![i] = k]
+  /\ UNCHANGED pend
   /\ Close(Hit(i, j))
   /\ Finish(Act("Misbehave", 0, i, j, 0, k, "ok"))
+
+BanBegin(i, j, k) ==
+  /\ Split /\ pend = NoPend
+  /\ pend' = <<i, j, k>>
+  /\ UNCHANGED <<ban, ph, ad>>
+  /\ Finish(Act("BanBegin", 0, i, j, 0, k, "held"))
+
+BanCommit ==
+  /\ pend # NoPend
+  /\ ban' = [ban EXCEPT ![pend[1]] = pend[3]]
+  /\ pend' = NoPend
+  /\ Close(Hit(pend[1], pend[2]))
+  /\ Finish(Act("BanCommit", 0, pend[1], pend[2], 0, pend[3], "ok"))
 
 Unban(i) ==
   /\ ban[i] # 0
   /\ ban' = [ban EXCEPT ![i] = 0]
-  /\ UNCHANGED <<ph, ad>>
+  /\ UNCHANGED <<ph, ad, pend>>
   /\ Finish(Act("Unban", 0, i, 0, 0, 0, "ok"))
 
 Drop(p) ==
   /\ ph[p] # 0
-  /\ UNCHANGED ban
+  /\ UNCHANGED <<ban, pend>>
   /\ Close({p})
   /\ Finish(Act("Drop", p, ad[p][1], ad[p][2], 0, 0, "ok"))
 
@@ -125,6 +156,7 @@ Init ==
   /\ ban = [i \in 1..NI |-> 0]
   /\ ph = [p \in 1..NP |-> 0]
   /\ ad = [p \in 1..NP |-> NoAddr]
+  /\ pend = NoPend
   /\ nops = 0
   /\ abs = AbsInit
   /\ act = Act("Init", 0, 0, 0, 0, 0, "ok")
@@ -136,6 +168,8 @@ Next ==
      \/ \E p \in 1..NP : \E f \in 0..3 : Version(p, f)
      \/ \E p \in 1..NP : VerAck(p)
      \/ \E i \in 1..NI : \E j \in 1..NJ : \E k \in 3..5 : Misbehave(i, j, k)
+     \/ \E i \in 1..NI : \E j \in 1..NJ : BanBegin(i, j, 5)
+     \/ BanCommit
      \/ \E i \in 1..NI : Unban(i)
      \/ \E p \in 1..NP : Drop(p)
 
@@ -148,6 +182,6 @@ TypeOK ==
 NoViolation == viol = {}
 
 \* nops is a bound, not part of a state's identity
-State == [ban |-> ban, ph |-> ph, ad |-> ad]
-View0 == <<ban, ph, ad, nops>>
+State == [ban |-> ban, ph |-> ph, ad |-> ad, pend |-> pend]
+View0 == <<ban, ph, ad, pend, nops>>
 =============================================================================
